@@ -33,11 +33,11 @@ CLAIMED = {
             "jaxnodes/jaxedges are caches and are not compared, but a later transformation failing because of them is a violation (mode retrace).",
             "DESIGN.md section 4 C06"),
     "C07": ("differential monitor over split/continued/manual-stepped runs + direct state monitor (returned all_states vs last recorded column) over checkpoint layouts",
-            "Exploration: N-step runs of active models (all recordable states recorded, trainable initial states in half of the cases) are compared with the same run split into 2-4 pieces chained through return_states/all_states (stimulus tail via data_stimulate), with manual init_fn/step_fn stepping (the dictionaries handed to each eager step must come back unchanged; numerically unstable reference runs are skipped), and the returned state dict is compared entry by entry with the last returned column for checkpoint layouts with product = and > N. Known finding F6 is reported as KNOWN-FINDING.",
+            "Exploration: N-step runs of active models (all recordable states recorded, trainable initial states in half of the cases) are compared with the same run split into 2-4 pieces chained through return_states/all_states (stimulus tail via data_stimulate), with manual init_fn/step_fn stepping (the dictionaries handed to each eager step must come back unchanged; numerically unstable reference runs are skipped), and the returned state dict is compared entry by entry with the last returned column for checkpoint layouts with product = and > N. A quarter of the cases are clamps-only splits: a permanent clamp on the module plus a per-call data_clamp and no data_stimuli, 2-3 equal pieces on the same module object; a continuation that raises, or a change of the module's own external_inds across the calls, is a violation. Known finding F6 is reported as KNOWN-FINDING.",
             "The one-call run is the reference for the pieces; tolerance 1e-9 relative.",
             "DESIGN.md section 4 C07"),
-    "C08": ("offline checker over the harness's call log: multi-step R1 reference for passive networks; unique-value tagging for row identity; clamp-hold, t_max and data-route identities; JAX checkify index sanitizer",
-            "Exploration: random interleavings of record/stimulate/clamp calls on random views; (A) channel-free capacitor networks: the whole output matrix is compared with a reference driven by the log of requested inputs (row order, time alignment, target compartment, additivity, charge), t_max padding/truncation and data_stimulate equivalence; (B) HH/K + three interleaved synapse types with a unique value in every state: column 0 identifies what each row really reads (compartment states, channel currents, synaptic states and currents), clamps (incl. repeated and data_clamp) hold their samples; externals/external_inds stay consistent after every accepted stimulate/clamp; checkify(index_checks) on the thomas backend as supplementary sanitizer.",
+    "C08": ("offline checker over the harness's call log: multi-step R1 reference for passive networks; reference simulator R3 for gate-clamp timing; unique-value tagging for row identity; clamp-hold, t_max and data-route identities; JAX checkify index sanitizer",
+            "Exploration: random interleavings of record/stimulate/clamp calls on random views; (A) channel-free capacitor networks: the whole output matrix is compared with a reference driven by the log of requested inputs (row order, time alignment, target compartment, additivity, charge), t_max padding/truncation and data_stimulate equivalence, and a run in which the stimulated compartments receive their geometry only at integrate time (trainable radius, data_set length) judged against R1 with that geometry; (B) HH/K + three interleaved synapse types with a unique value in every state: column 0 identifies what each row really reads (compartment states, channel currents, synaptic states and currents), clamps (incl. repeated and data_clamp) hold their samples; externals/external_inds stay consistent after every accepted stimulate/clamp; (G) time-varying gate clamps on an HH/K cell: the whole matrix of v, channel currents and gates against the reference simulator R3, which pins the step at which a clamp sample enters the dynamics; checkify(index_checks) on the thomas backend as supplementary sanitizer.",
             "R1 as reference for passive cases; row i of a stimulus goes to the i-th compartment of the view as shown by view.nodes.",
             "DESIGN.md section 4 C08"),
     "C09": ("reference-model monitor: independent synaptic reference simulator (Abbott-Marder closed form + absolute point currents in the R1 system) over recorded voltages; order/zero-conductance differentials",
@@ -69,7 +69,7 @@ CLAIMED = {
             "Conventions are those documented in docstrings/comments; the convention-free subset is what is independent.",
             "DESIGN.md section 4 C16"),
     "C18": ("equality + object-graph aliasing monitor over pickle/deepcopy copies of modules from random histories; independence under edits",
-            "Exploration: modules from random construction/editing histories (hand-built incl. parent-shorter-than-level cells, SWC cells with single/multi-point somata, networks with synapses, groups, trainables, clamps, after integrate / set_ncomp, views) are copied by pickle and deepcopy: tables and attributes equal, simulation and gradient bit-identical, no mutable object shared between the object graphs (walk through every jaxley object; a walk that visits fewer than 8 objects is skipped, not held), mechanism instance state incl. a channel renamed after construction, editing the copy leaves the original unchanged and editing the original (incl. set_ncomp on a branch with children) leaves an earlier copy unchanged.",
+            "Exploration: modules from random construction/editing histories (hand-built incl. parent-shorter-than-level cells, SWC cells with single/multi-point somata and padded root branches, networks with synapses, groups, trainables, clamps, after integrate / set_ncomp, views) are copied by pickle and deepcopy: tables and attributes equal, simulation and gradient bit-identical, no mutable object shared between the object graphs (walk through every jaxley object; a walk that visits fewer than 8 objects is skipped, not held), mechanism instance state incl. a channel renamed after construction, editing the copy leaves the original unchanged and editing the original (incl. set_ncomp on a branch with children) leaves an earlier copy unchanged.",
             "jax arrays are immutable and may be shared; jaxnodes/jaxedges caches excluded.",
             "DESIGN.md section 4 C18"),
     "C19": ("invariant at a hook (table invariants R6 after every accepted public mutator) + offline reference simulation R3 of the final tables; exhaustive bounded histories + random histories",
